@@ -295,6 +295,20 @@ def run(repo: Repo, chk: Check):
                                         "the finally block, no reply is written and the request loop ends")
             chk.judge("R14.b", "mod_daemon:process_input:reply encoding cannot fail", good, why, {"ensure_ascii": ascii_text}, f"{path}:{call.lineno}")
         break
+    def display_at(e, at, depth=0):
+        """is_display with local names followed to their (single) definitions: text, numbers, displays of those, traceback text"""
+        if depth > 4:
+            return False
+        if isinstance(e, ast.Name):
+            ds_ = rd.at(at, e.id)
+            return bool(ds_) and all(d_.kind == "assign" and not d_.index and d_.value is not None and display_at(d_.value, d_.node, depth + 1) for d_ in ds_)
+        if isinstance(e, ast.Dict):
+            return all(k is not None and isinstance(k, ast.Constant) and isinstance(k.value, str) and display_at(v, at, depth + 1) for k, v in zip(e.keys, e.values))
+        if isinstance(e, (ast.List, ast.Tuple)):
+            return all(display_at(x, at, depth + 1) for x in e.elts)
+        if isinstance(e, ast.Call) and isinstance(e.func, ast.Attribute) and e.func.attr in ("format_exc", "format_exception_only", "format_stack"):
+            return True
+        return is_display(e)
     tests = [n for n in cfg.nodes if n.kind == "test" and n.id in live and isinstance(n.ast, ast.Compare) and norm(n.ast) == f"{resp_name} is not None"]
     bad_defs, n_defs = [], 0
     check_points = [t.id for t in tests] or reply_nodes
@@ -319,7 +333,7 @@ def run(repo: Repo, chk: Check):
                     stack.extend(b for i, (b, lab) in enumerate(cfg.succ[a]) if (a, i) not in pruned)
                 if reach:
                     bad_defs.append("None reaches the reply test")
-            elif is_display(d.value):
+            elif display_at(d.value, d.node):
                 pass
             elif isinstance(d.value, ast.Call) and norm(d.value.func) == "compile_code":
                 pass
